@@ -1142,6 +1142,66 @@ fn replay(cfg: &Cfg, info: &[Info; 256], rec: &Value) -> Report {
     rep
 }
 
+/// The executing interpreter against the decoder: a word with a defined opcode byte and a
+/// reserved bit set (rejected by `Instruction::try_from`) is placed first in a script and
+/// executed; the VM must panic with `InvalidInstruction` at that word - it has its own
+/// per-opcode argument parsers, and an arm that skips them would run such a word.
+fn vm_agreement(cfg: &Cfg, info: &[Info; 256]) -> Report {
+    use crate::world::{
+        ScriptSpec,
+        World,
+        run_plain,
+    };
+    let mut rep = Report::new();
+    let world = World::new(fuel_tx::ConsensusParameters::standard(), 0);
+    let mut rng = Rng::derive(cfg.seed, 0x08e0, 0);
+    for b in 0..=255u32 {
+        let inf = &info[b as usize];
+        if inf.row == usize::MAX {
+            continue;
+        }
+        let reserved = !inf.mask & 0x00ff_ffff;
+        if reserved == 0 {
+            continue;
+        }
+        // lowest, highest and one random reserved bit; once alone, once with random operands
+        let bits: Vec<u32> = (0..24).filter(|k| reserved >> k & 1 == 1).collect();
+        let picks = [bits[0], bits[bits.len() - 1], bits[rng.usize_below(bits.len())]];
+        for (n, k) in picks.iter().enumerate() {
+            let operands = if n == 2 { rng.u32() & inf.mask & 0x00ff_ffff } else { 0 };
+            let word = (b << 24) | operands | (1 << k);
+            if fuel_asm::Instruction::try_from(word.to_be_bytes()).is_ok() {
+                continue; // the decoder's verdict on such words is judged above
+            }
+            let mut script = word.to_be_bytes().to_vec();
+            script.extend_from_slice(&fuel_asm::op::ret(fuel_asm::RegId::ONE).to_bytes());
+            let spec = ScriptSpec { script, data: vec![], gas_limit: 100_000, max_fee: 0, coins: vec![(0, 0, 1000)], ..Default::default() };
+            let Ok(ready) = spec.ready(&world, b as u64 * 4 + n as u64) else {
+                rep.count("vm_agreement_script_rejected");
+                continue;
+            };
+            let (out, _) = run_plain(&world, ready);
+            rep.eval();
+            rep.count("vm_executed_words_with_reserved_bits");
+            let panic = out.receipts.iter().find_map(|r| match r {
+                fuel_tx::Receipt::Panic { reason, pc, is, .. } => Some((*reason.reason(), *pc == *is)),
+                _ => None,
+            });
+            let mn = TABLE.get(inf.row).map(|r| r.mnemonic).unwrap_or("?");
+            rep.class(format!("vm|{mn}|reserved bit|{:?}", panic.map(|p| p.0)));
+            if panic != Some((fuel_asm::PanicReason::InvalidInstruction, true)) {
+                let info_j = json!({"kind": "vm", "word": format!("{word:#010x}")});
+                rep.violation(
+                    format!("C08|interpreter executes a word the decoder rejects|{mn}"),
+                    format!("word {word:#010x} (reserved bit {k} set): Instruction::try_from rejects it, executed first in a script the VM ended with {:?} / {:?}", out.state, panic),
+                    || info_j.clone(),
+                );
+            }
+        }
+    }
+    rep
+}
+
 pub fn run(cfg: &Cfg) -> Report {
     let info = match build_info() {
         Ok(i) => i,
@@ -1266,6 +1326,8 @@ pub fn run(cfg: &Cfg) -> Report {
     rep.gate("opcodes_constructed", built_ops, TABLE.len() as u64);
     rep.gate("undefined_opcode_bytes_probed", undefined_seen, 256 - TABLE.len() as u64);
     rep.gate("opcode_try_from_calls", rep.counter("opcode_try_from_calls"), 256);
+    rep.merge(vm_agreement(cfg, info));
+    rep.gate("vm_executed_words_with_reserved_bits", rep.counter("vm_executed_words_with_reserved_bits"), 100);
     if thorough {
         rep.gate("words", rep.counter("words"), 1 << 32);
         rep.exhaustive = rep.counter("words") == 1 << 32;
@@ -1278,9 +1340,9 @@ pub fn run(cfg: &Cfg) -> Report {
                 rep.counter("ctor_tuples")
             ));
         }
-        rep.rule = "decode: ALL 2^32 words (Instruction::try_from([u8;4]) and (u32), re-encode, opcode(), unpack(), field accessors, reg_ids(), op::X::from_raw_args selected through Opcode::try_from as the interpreter does); constructors: every opcode x every in-range argument tuple of its shape (exhaustive, up to 2^24 per opcode) through op::x(..) and op::X::new(..). class = (opcode, decode outcome) and (opcode, constructed)".into();
+        rep.rule = "decode: ALL 2^32 words (Instruction::try_from([u8;4]) and (u32), re-encode, opcode(), unpack(), field accessors, reg_ids(), op::X::from_raw_args selected through Opcode::try_from as the interpreter does); constructors: every opcode x every in-range argument tuple of its shape (exhaustive, up to 2^24 per opcode) through op::x(..) and op::X::new(..). vm: per defined opcode three words with a reserved bit set executed as the first instruction of a script: the VM must panic with InvalidInstruction at that word. class = (opcode, decode outcome) and (opcode, constructed)".into();
     } else {
-        rep.rule = "decode: 2^26 words = every opcode byte (256) x 2^18 low-bit patterns (all combinations of the four 6-bit fields over {0,1,0x0f,0x10,0x3e,0x3f}, single/double bit walks, field-aligned prefixes with one reserved bit, random); constructors: exhaustive for shapes <= 18 argument bits, per-field boundary cross product + 2^16 random tuples for 24-bit shapes. class = (opcode, decode outcome) and (opcode, constructed)".into();
+        rep.rule = "decode: 2^26 words = every opcode byte (256) x 2^18 low-bit patterns (all combinations of the four 6-bit fields over {0,1,0x0f,0x10,0x3e,0x3f}, single/double bit walks, field-aligned prefixes with one reserved bit, random); constructors: exhaustive for shapes <= 18 argument bits, per-field boundary cross product + 2^16 random tuples for 24-bit shapes. vm: per defined opcode three words with a reserved bit set executed as the first instruction of a script: the VM must panic with InvalidInstruction at that word. class = (opcode, decode outcome) and (opcode, constructed)".into();
     }
     rep.assume("reference: hand-written table opcode byte -> (mnemonic, field shape) in c08.rs (FuelVM instruction set, cross-read once against fuel-asm/src/lib.rs of the tree at authoring time); fields are packed MSB-first from bit 23, remaining low bits reserved");
     rep.assume("the harness reaches the typed per-opcode API (op::X, Instruction::X) through the same table, so an opcode added to or removed from fuel-asm without updating the table shows up as an accepted undefined byte / a build error, not silently");
